@@ -1,10 +1,15 @@
 //! Free-running pass for C19 under Miri's data-race detector (thorough tier, sync configuration):
 //! the same kind of thread bodies as the schedule explorer, but on uncontrolled threads, so that
 //! unsynchronised accesses outside the regex-manager lock would be reported. Not exhaustive.
-use adblock::request::Request;
-use adblock::Engine;
-
+#[cfg(not(feature = "sync"))]
 fn main() {
+    eprintln!("c19_miri is only meaningful in the sync configuration");
+}
+
+#[cfg(feature = "sync")]
+fn main() {
+    use adblock::request::Request;
+    use adblock::Engine;
     let rules = ["foo*bar", "@@baz^qux", "/ad[0-9]+/$script", "plain", "||x.com^$csp=d1", "x.com##.ad"];
     let mut e = Engine::from_rules_parametrised(rules, Default::default(), true, false);
     e.set_regex_discard_policy(adblock::regex_manager::RegexManagerDiscardPolicy {
